@@ -3,7 +3,7 @@
 (* C16: exactly the selected files are processed, each once.                *)
 (* A fixed universe of files in a small tree (the working directory is the   *)
 (* root):                                                                    *)
-(*   a.lua   src/b.lua   src/vendor/v.lua   src/vendor/deep/w.lua            *)
+(*   a.lua   src/a.lua   src/b.lua   src/vendor/v.lua   src/vendor/deep/w.lua *)
 (*   src/c.luau   src/notes.txt   lib/d.lua   .hidden.lua   .hid/h.lua       *)
 (* `.styluaignore` files at the root and/or in src with patterns from a      *)
 (* small language (gitignore semantics):                                     *)
@@ -20,6 +20,7 @@ F(p, d, n, e) == [path |-> p, dir |-> d, name |-> n, ext |-> e]
 Universe == {
   F("a.lua", <<>>, "a.lua", "lua"),
   F("src/b.lua", <<"src">>, "b.lua", "lua"),
+  F("src/a.lua", <<"src">>, "a.lua", "lua"),       \* same name as a.lua one level down: distinct files whose spellings share components
   F("src/vendor/v.lua", <<"src", "vendor">>, "v.lua", "lua"),
   F("src/vendor/deep/w.lua", <<"src", "vendor", "deep">>, "w.lua", "lua"),
   F("src/c.luau", <<"src">>, "c.luau", "luau"),
@@ -80,11 +81,13 @@ GlobOK(sc, f) ==
        IF ms = {} THEN \A i \in DOMAIN gs : gs[i].neg
        ELSE LET last == CHOOSE i \in ms : \A j \in ms : j <= i IN ~gs[last].neg
 
-(* an argument: [kind |-> "dir"|"file", path, dir (components)] *)
+(* an argument: [kind |-> "dir"|"file", path, dir (components)]; a file argument spelled through `..` carries the *)
+(* path of the file it denotes in the extra field `file` (`src/../a.lua` denotes a.lua)                          *)
+Target(a) == IF "file" \in DOMAIN a THEN a.file ELSE a.path
 UnderDir(f, a) == IsPrefix(a.dir, f.dir)
 SelectedBy(sc, f, a) ==
   IF a.kind = "file"
-  THEN a.path = f.path /\ (sc.respect => (~Ignored(sc, f) /\ GlobOK(sc, f)))
+  THEN Target(a) = f.path /\ (sc.respect => (~Ignored(sc, f) /\ GlobOK(sc, f)))
   ELSE /\ UnderDir(f, a) /\ GlobOK(sc, f) /\ ~Ignored(sc, f)
        /\ (sc.allow_hidden \/ ~Hidden(f, a.dir))
 Selected(sc, f) == \E i \in DOMAIN sc.args : SelectedBy(sc, f, sc.args[i])
